@@ -4,6 +4,9 @@ CONSTANTS MaxCap = 3
           MaxPend = 1
           MaxMsgs = 6
           FixedWrap = TRUE
+          ResizeRuns = TRUE
+          GetRefills = TRUE
+          NbReady = TRUE
 INVARIANTS IndexInRange Refines
 ACTION_CONSTRAINT ExportEdge
 VIEW View
